@@ -184,8 +184,8 @@ MonReg reg({"C10", "exploration",
 			"skinned shapes built through the API in OB, FO3, SK and SSE (3..350 vertices, 1..120 triangles, 1..120 bones, 1..8 influences per vertex, tied and distinct weights) and "
 			"the skinned shapes of the real samples. Operations: CreateSkinning+UpdateSkinPartitions, three rounds of GetShapePartitions -> SetShapePartitions with random assignments "
 			"(in range, partly unassigned -1, ids past the end, all unassigned, all in one) -> UpdateSkinPartitions, RemoveEmptyPartitions, DeletePartitions followed by the "
-			"get/set/update recovery, SetDefaultPartition, and save+reload. Oracle after each: multiset of partition triangles (rotation-normalised) == shape triangles, vertex map == "
+			"get/set/update recovery, a vertex deletion between an assignment and the next rebuild, SetDefaultPartition, and save+reload. Oracle after each: multiset of partition triangles (rotation-normalised) == shape triangles, vertex map == "
 			"sorted set of used vertices, mapped triangles translate back, bone count <= 18 (OB/FO3) / 80 (SSE), weights >= 0 summing to 1 or 0, bone slots and partition bones in range, "
-			"counters equal array sizes, dismember list aligned. Non-trivial = model that went through all operations.",
+			"counters equal array sizes, dismember list aligned; after a rebuild every partition vertex resolved through the partition's bone table equals the normalised four largest NiSkinData influences. Non-trivial = model that went through all operations.",
 			[] { return realSamples().size() + nApi(); }, run, 12, 300.0, false, false, nullptr});
 } // namespace
